@@ -3,6 +3,8 @@ package syncx_test
 import (
 	"fmt"
 	"math"
+	"sync"
+	"sync/atomic"
 	"testing"
 	"time"
 
@@ -20,7 +22,21 @@ import (
 //      "ret"     Return without a borrow of this goroutine
 // Every successful borrow is returned by its goroutine, so a blocked Borrow
 // always gets its turn and no case can deadlock.
+//
+// A limit of 0 ("a limit of n" with n = 0: NewLimit / NewTimeoutLimit accept
+// it, a disabled gate) is inside the statement: no borrow may ever succeed and
+// every Return is a Return without a borrow. TimeoutLimit(0): every timed
+// borrow waits out its timeout, with unmatched Returns arriving while it is
+// parked. Limit(0): Borrow() must block for ever, so such a borrow is issued
+// from a goroutine of its own (c18Parked) and the script goes on; what is
+// still parked at the end of the case is the expected outcome, not a leak.
 // ---------------------------------------------------------------------------
+
+// c18Parked is a blocking Borrow() on a plain Limit of 0.
+type c18Parked struct {
+	ev   c18Ev
+	done atomic.Bool // Borrow returned during the scripted part of the case
+}
 
 // c18Timeout of a timed borrow: A milliseconds, or (E != 0) one of the extreme
 // but legal values: "wait for ever" idioms and values next to the overflow
@@ -115,6 +131,29 @@ func c18LimitInterp(t *testing.T, c c18Case, timed bool) kit.Verdict {
 				}
 			})
 		}
+		// Limit(0).Borrow(): parked on a goroutine of its own
+		var parkedMu sync.Mutex
+		var parked []*c18Parked
+		var closing atomic.Bool
+		park := func(g, i int, op c18Op) {
+			p := &c18Parked{ev: c18Ev{G: g, I: i, Op: op, Sub: "borrow"}}
+			p.ev.Inv = clk.now()
+			parkedMu.Lock()
+			parked = append(parked, p)
+			parkedMu.Unlock()
+			go func() {
+				plains[op.M].Borrow()
+				if closing.Load() {
+					return // let go by the epilogue's clean-up, not part of the history
+				}
+				ev := p.ev
+				ev.Ret = clk.now()
+				ev.OK = true
+				p.done.Store(true)
+				log.ev(ev)
+				hold(g, i, op)
+			}()
+		}
 		// Rescue: a timed borrow with an extreme timeout whose wake-up was lost
 		// (tolerated same-instant race) would wait until the end of representable
 		// time. After every scripted activity must be over, a helper goroutine
@@ -168,6 +207,9 @@ func c18LimitInterp(t *testing.T, c c18Case, timed bool) kit.Verdict {
 					if err != nil && err != syncx.ErrTimeout {
 						ev.Err = -1
 					}
+				} else if size(op.M) == 0 {
+					park(g, i, op)
+					return
 				} else {
 					plains[op.M].Borrow()
 					ev.OK = true
@@ -193,8 +235,46 @@ func c18LimitInterp(t *testing.T, c c18Case, timed bool) kit.Verdict {
 			if helperDone != nil {
 				<-helperDone
 			}
+			parkedMu.Lock()
+			ps := parked
+			parkedMu.Unlock()
+			if len(ps) == 0 {
+				return
+			}
+			// every borrower that got through (it holds <= 5 ms and its deferred
+			// Return may let the next one through) is over after this
+			time.Sleep(time.Duration(len(ps)+2) * 10 * c18ms)
+			kit.Wait()
+			closing.Store(true)
+			for _, p := range ps {
+				if !p.done.Load() {
+					ev := p.ev
+					ev.Sub, ev.Ret = "borrow-pending", clk.now()
+					log.ev(ev)
+				}
+			}
+			// clean-up, not recorded: where a Return can let a parked Borrow go,
+			// let them all go; where it cannot they stay (expected residue)
+			for m := 0; m < c18Inst; m++ {
+				for k := 0; k <= len(ps); k++ {
+					if plains[m].Return() != nil {
+						break
+					}
+				}
+			}
+			kit.Wait()
 		}
 	})
+	pendingParked := 0
+	for _, ev := range full.evs {
+		if ev.Sub == "borrow-pending" {
+			pendingParked++
+		}
+	}
+	if pendingParked > 0 && res.Leak {
+		// Borrow() on a limit of 0 blocks for ever: that IS the specified result
+		res = kit.BubbleResult{}
+	}
 
 	for _, ev := range full.evs {
 		if ev.Ret.T >= c18EndOfTime {
@@ -218,6 +298,32 @@ func c18LimitInterp(t *testing.T, c c18Case, timed bool) kit.Verdict {
 	}
 	if inst > 0 {
 		what += fmt.Sprintf("[instance %d]", inst)
+	}
+	if c.N == 0 {
+		v.class("limit-of-zero")
+		for _, ev := range log.evs {
+			switch ev.Sub {
+			case "unmatched-return":
+				for _, w := range log.evs {
+					if (w.Sub == "borrow" || w.Sub == "borrow-pending") && w.Inv.S < ev.Inv.S && w.Ret.S > ev.Ret.S {
+						v.class("limit-of-zero:unmatched-return-while-a-borrower-is-parked")
+						if !timed {
+							// the situation of the fixed finding limit-zero-rendezvous
+							v.class("limit-zero-rendezvous(situation-of-the-fixed-finding)")
+						}
+						v.nt = true
+					}
+				}
+			case "borrow-pending":
+				v.class("limit-of-zero:Borrow()-parked-until-the-end")
+			}
+		}
+		// the statement, read for n = 0: no borrow is ever outstanding
+		for _, ev := range log.evs {
+			if (ev.Sub == "borrow" || ev.Sub == "try") && ev.OK {
+				v.failf("%s(0) g%d#%d %s succeeded: 1 outstanding borrow on a limit of 0", what, ev.G, ev.I, ev.Sub)
+			}
+		}
 	}
 	// lower bound on outstanding borrows: acquired for sure once the borrow has
 	// returned, possibly released as soon as a successful Return was invoked.
@@ -398,7 +504,7 @@ func c18JudgeWakeup(v *c18V, log *c18Log, c c18Case) {
 
 func c18LimitGen(timed bool) func(rt *rapid.T) c18Case {
 	return func(rt *rapid.T) c18Case {
-		c := c18Case{N: rapid.SampledFrom([]int{1, 1, 2, 2, 3}).Draw(rt, "n")}
+		c := c18Case{N: rapid.SampledFrom([]int{1, 1, 2, 0, 2, 3, 1, 2}).Draw(rt, "n")}
 		c.Gs = c18GenGs(rt, 4, func(rt *rapid.T, burst bool) c18Op {
 			op := c18Op{K: rapid.SampledFrom([]string{"borrow", "borrow", "borrow", "try", "try", "ret"}).Draw(rt, "k")}
 			if op.K != "ret" {
@@ -417,7 +523,18 @@ func c18LimitGen(timed bool) func(rt *rapid.T) c18Case {
 		})
 		c18DrawInstances(rt, c.Gs)
 		if rapid.IntRange(0, 1).Draw(rt, "differentSizes") == 0 {
-			c.D, c.N2 = true, rapid.IntRange(1, 3).Draw(rt, "n2")
+			c.D, c.N2 = true, rapid.IntRange(0, 3).Draw(rt, "n2")
+		}
+		// on a limit of 0 nothing ever wakes a timed borrow: the "wait for ever"
+		// timeouts become the other scale-free ones (negative, 1 ns, 1 h), so that
+		// every borrow of a case ends within representable time
+		for g := range c.Gs {
+			for i := range c.Gs[g] {
+				o := &c.Gs[g][i]
+				if n, _ := c18Settings(c, o.M); n == 0 && o.E >= 1 && o.E <= 7 {
+					o.E = 8 + (o.E-1)%5
+				}
+			}
 		}
 		return c
 	}
